@@ -212,7 +212,9 @@ def rule(facts, res, rule_name, comp_fns, want=("G1", "G2", "G3", "G4", "G5"), f
     for f in comp_fns:
         if "body" not in f:
             continue
-        a = analyse(facts, f, scc_of.get(f["id"], {f["id"]}))
+        if f["id"] not in scc_of:
+            continue        # a `seen` set in a function that does not recurse is not a recursion guard
+        a = analyse(facts, f, scc_of[f["id"]])
         if a is None:
             continue
         st["instances"] += 1
